@@ -1,21 +1,33 @@
 #!/usr/bin/env python3
-"""Writes /verif/evidence/C15.json when the Send+Sync probe does not compile (violation found by
-the type checker before any simulation could be built)."""
-import json, os, re, sys, time
+"""Writes /verif/evidence/C15.json when one of the two compile-time probes gives the verdict
+(violation found by the type checker before any simulation could be built):
+  default      probe_sendsync does not compile: a public type is not Send + Sync
+  overpromised probe_not_send does not compile because a type IS Send/Sync although its numeric
+               types are not thread-safe"""
+import json, os, re, sys
 tier = sys.argv[1] if len(sys.argv) > 1 else "quick"
-log = open("/verif/target/build-probe_sendsync.log").read()
-types = ["Node", "Value", "EvalexprError", "Function", "Operator", "HashMapContext", "EmptyContext", "EmptyContextWithBuiltinFunctions"]
-bad = sorted(set(re.findall(r"`([^`]+)` cannot be (?:sent|shared) between threads safely", log)))
+mode = sys.argv[2] if len(sys.argv) > 2 else "default"
 seed = int(os.environ.get("VERIF_SEED", "20260101") or 20260101)
+if mode == "overpromised":
+    log = open("/verif/target/build-probe_not_send.log").read()
+    types = ["Value", "Operator", "Node", "EvalexprError", "HashMapContext"]
+    bad = sorted(set(re.findall(r"<((?:Value|Operator|Node|EvalexprError|HashMapContext)<Tagged>) as", log)))
+    rule = ("compile-time probe: with a numeric type whose integer carries an Rc, none of the 5 generic public data types may be "
+            "Send or Sync (10 negative assertions); the probe did not compile because at least one is, so no simulation was run.")
+    cov = {"send_sync_negative_probe": "FAILED to compile (a type is Send/Sync although its numbers are not)", "offending": bad}
+else:
+    log = open("/verif/target/build-probe_sendsync.log").read()
+    types = ["Node", "Value", "EvalexprError", "Function", "Operator", "HashMapContext", "EmptyContext", "EmptyContextWithBuiltinFunctions"]
+    bad = sorted(set(re.findall(r"`([^`]+)` cannot be (?:sent|shared) between threads safely", log)))
+    rule = "compile-time probe: assert_send_sync::<T>() for the 8 public data types; each type is one case. The probe did not compile, so no simulation was run."
+    cov = {"send_sync_probe": "FAILED to compile", "offending": bad}
 ev = {
   "property_id": "C15", "tier": tier, "seed": seed, "level": "exploration",
-  "coverage": {
+  "coverage": dict({
     "evaluations": len(types), "distinct_nontrivial": len(types),
-    "rule": "compile-time probe: assert_send_sync::<T>() for the 8 public data types; each type is one case. The probe did not compile, so no simulation was run.",
+    "rule": rule,
     "samples": [{"type": t} for t in types],
-    "send_sync_probe": "FAILED to compile",
-    "offending": bad,
-  },
+  }, **cov),
   "assumptions": ["rustc's auto-trait inference"],
   "wall_s": 0.0, "violations": 1,
 }
